@@ -14,28 +14,36 @@ GENERATED = ["gc"]
 SOURCES = ["src/allmydata/storage/crawler.py"]
 DESIGN_REF = "DESIGN.md §2 C27"
 TECHNIQUE = ("Lean 4 invariant proofs over a slice-level state machine of ShareCrawler (oracle stream for the time-slice checks, "
-             "kill = revert to the saved state with an empty bucket cache, directory listings as a per-slice parameter); "
-             "differential correspondence against a real ShareCrawler subclass driven through the real start_slice() with a "
-             "scripted clock, scripted kills and re-instantiation from the real state file")
+             "kill = revert to the saved state with an empty bucket cache, directory listings as a per-slice set that the crawler "
+             "orders itself) and over a process machine with an explicit state file (save_state / load_state, atomicity of the "
+             "write as a parameter, kills inside the write); differential correspondence against a real ShareCrawler subclass "
+             "driven through the real start_slice() with a scripted clock, scripted kills (after any process_bucket call, at four "
+             "points inside the state write), restarts and orderly stopService() with re-instantiation from the real state file, "
+             "directory listings presented in scripted order")
 LEVEL_TEXT = ("covers_at_least_once (every oracle stream, every kill/restart pattern, changing listings), "
-              "exactly_once_without_kill and cycle_numbers_increment are proved for all schedules and any number >= 2 of "
-              "prefixes (the code has 1024, pinned); the model is tied to crawler.py by comparing the process_bucket log and "
-              "the state file after every slice of systematically enumerated and random schedules.")
-LEVEL_NOTE = ("State file: state_file_tracks_memory / proc_refines_slice_machine prove, on a machine with explicit save_state / "
-              "load_state (and the prefix-name <-> index mapping), that the file equals the in-memory progress incl. "
-              "last-complete-bucket after every event; the driver runs that machine and the harness compares both the file and "
-              "the in-memory state of the (re-created) crawler, incl. orderly stopService() restarts. " +
-              "Hypotheses: at least two prefixes (with a single prefix the bucket cache of the previous cycle would be reused; "
-              "proved counterexample), bucket names start with their prefix (names of later prefixes compare greater: "
-              "last-complete-bucket is not reset between prefixes). Kills are modelled at process_bucket-call granularity.")
-RULE = ("a case is one event (slice / killed slice / restart) of a schedule run on the real ShareCrawler over a real directory tree; "
-        "distinct = distinct (state file before, listing, oracle, kill point) tuples; non-trivial = the slice made at least one "
-        "process_bucket call or was interrupted/killed")
-TRUSTED = ["the harness replaces the module attributes crawler.os (listdir / scandir hand out entries in a scripted order: native, "
+              "exactly_once_without_kill, at_most_once_without_kill and cycle_numbers_increment are proved for all schedules and "
+              "any number >= 2 of prefixes (the code has 1024: num_prefixes_pinned); state_file_tracks_memory, "
+              "proc_refines_slice_machine, load_save_round_trip and the _proc versions of coverage / exactly-once for processes "
+              "restarted from the state file; with the atomic (tmp + rename) write, cycle_numbers_increment_atomic and "
+              "save_kill_is_kill_or_restart also for kills inside the state write; slice_calls_beyond_marker and "
+              "sorted_listing_is_covered for the resume marker. Counterexamples prove why the hypotheses are there: "
+              "single_prefix_stale_cache, kill_repeats_work, nonatomic_save_resets_cycle_numbers, unsorted_listing_skips_buckets.")
+LEVEL_NOTE = ("The driver runs the process machine and the harness compares the process_bucket log, the state file and the "
+              "in-memory state of the (re-created) crawler after every event; which write discipline the code implements is "
+              "observed on a probe save and passed to the driver. Hypotheses: at least two prefixes, bucket names start with their "
+              "prefix (last-complete-bucket is not reset between prefixes). Kills are modelled at process_bucket-call granularity "
+              "and at four points of the state write. Subclass state in the state file: for the lease crawler see C26 "
+              "(histogram_survives_state_file, gcrun); other subclass keys correspondence only. Not covered: timing "
+              "(allowed_cpu_percentage, sleep times).")
+RULE = ("a case is one event (slice / killed slice / slice or stopService killed inside the state write / restart / orderly stop) of "
+        "a schedule run on the real ShareCrawler over a real directory tree; distinct = distinct (state file before, listing, "
+        "oracle, kill point) tuples; non-trivial = the slice made at least one process_bucket call or was interrupted/killed")
+TRUSTED = ["lean/Tahoe/Storage/Crawler.lean is a hand transcription of start_slice / start_current_prefix / process_prefixdir / "
+           "save_state / load_state / _LeaseStateSerializer.save",
+           "the harness replaces the module attributes crawler.os (listdir / scandir hand out entries in a scripted order: native, "
            "ascending, descending or a seeded permutation) and crawler._dump_json_to_file / _LeaseStateSerializer.save (kill after "
            "the truncating open, after half the bytes, after the complete write, after save returned); whether save writes the "
            "state path itself (in place) or a sibling + rename is OBSERVED on a probe save and passed to the driver (a0 / a1)",
-           "lean/Tahoe/Storage/Crawler.lean is a hand transcription of start_slice/start_current_prefix/process_prefixdir/save_state",
            "the harness scripts the clock by replacing the module attribute crawler.time and advancing it from the "
            "process_bucket / finished_prefix hooks (the time check is the next statement after each hook); a kill is an exception "
            "that leaves start_slice before save_state, after which the crawler object is discarded and re-created from the state file"]
